@@ -3,6 +3,7 @@ package main
 import (
 	"encoding/json"
 	"fmt"
+	"github.com/trustbloc/sidetree-core-go/pkg/patch"
 	"math/rand"
 	"strings"
 
@@ -111,6 +112,12 @@ func signedVariants(d *world.DID, rng *rand.Rand) []*world.Op {
 	mk("update:reveal-other-key", func(s *world.Spec) { s.RevealKey = d.Stranger(0) })
 	mk("update:window", func(s *world.Spec) { s.From, s.Until = 1000, 2000 })
 	mk("update:disabled-action", func(s *world.Spec) { s.Patches, s.DValid, s.PatchOK = world.DisabledPatches(), false, true })
+	// a delta whose canonical form has far more BYTES than characters: the size limit is in bytes
+	mk("update:non-ascii-delta", func(s *world.Spec) {
+		p, err := patch.NewJSONPatch(`[{"op":"add","path":"/note","value":"héllo wörld 日本語のテキスト 😀😀😀 ñandú"}]`)
+		world.Must(err)
+		s.Patches, s.DValid, s.PatchOK = []patch.Patch{p}, true, true
+	})
 	mk("update:hash-mismatch", func(s *world.Spec) { s.Tamper = world.TSwapDelta })
 	mk("update:no-delta", func(s *world.Spec) { s.Tamper = world.TNoDelta })
 	rec := func(label string, f func(s *world.Spec)) {
